@@ -502,7 +502,10 @@ impl util::BitVec
             {
                 result.push(' ');
             }
-            result.push_str(&format!(" ; {}", char_counter.get_excerpt(span_location.0, span_location.1)));
+            // An item written over several lines stays on its one row
+            result.push_str(&format!(" ; {}", char_counter.get_excerpt(span_location.0, span_location.1)
+                .replace("\r", " ")
+                .replace("\n", " ")));
             result.push_str("\n");
 		}
 
@@ -605,7 +608,10 @@ impl util::BitVec
             }
             let span_location = span.span.location().unwrap();
             let char_counter = util::CharCounter::new(&prev_file_chars);
-            result.push_str(&format!("{comment} {}\n", char_counter.get_excerpt(span_location.0, span_location.1)));
+            // (a line break inside the excerpt would end the comment)
+            result.push_str(&format!("{comment} {}\n", char_counter.get_excerpt(span_location.0, span_location.1)
+                .replace("\r", " ")
+                .replace("\n", " ")));
 
 			// bytecode
             let mut contents_str = String::new();
